@@ -96,7 +96,7 @@ def run(ctx):
                 if l is None:
                     continue
                 ty = cs.body.local_ty(l)
-                if "DrainResult" in ty or ty == "usize":
+                if "DrainResult" in ty or (ty == "usize" and ai == len(cs.args) - 1):
                     o = pr.operand(a)
                     callbbs = {x[1] for x in o if x[0] == "call"}
                     okd = bool(callbbs & drains) and all(dominates(cs.body, d, cs.bb, dom) for d in callbbs & drains)
@@ -106,32 +106,55 @@ def run(ctx):
                               "derives from drain call bb%s" % sorted(callbbs & drains))
             ctx.check(fed >= 2, "R04.3", fnkey(cs.body) + "#tracker-fed-status-and-count", loc(cs.body, cs.bb),
                       "waker tracker is no longer fed (status, entry_count)")
-            # ring-derived bound
-            ring = lambda x: x.is_in("crossbeam_queue", "ArrayQueue::capacity", "ArrayQueue::len")
-            okb = False
+            # ring-derived bound: the value stored as "entries before wake" when new signals are collected
+            ring_const = lambda x: x.is_in("crossbeam_queue", "ArrayQueue::capacity")
+            ring_len = lambda x: x.is_in("crossbeam_queue", "ArrayQueue::len")
+            ring = lambda x: ring_const(x) or ring_len(x)
+            cpr = pr
+            kinds = set()      # {'capacity', 'len-lazy', 'len-early', 'none'}
             for ai, a in enumerate(cs.args):
+                l = op_local(a)
+                aty = cs.body.local_ty(l) if l is not None else ""
                 cl = closure_for_operand(F, cs.body, a)
-                if cl is None:
-                    continue
-                if (cl.locals[0]["ty"] if cl.locals else "") != "usize":
-                    continue
-                if reaches_call(F, cl, ring, depth=2):
-                    okb = True
-                else:
-                    # returns a captured value computed from the ring in the parent
-                    po = Prov(cl).local(0)
-                    caps = {x[2][0] for x in po if x[0] == "arg" and x[1] == 1 and x[2]}
-                    for i in cs.body.live_blocks():
-                        for s in cs.body.stmts(i):
-                            if s["k"] == "assign" and s["rv"]["k"] == "agg" and s["rv"].get("closure") == cl.def_:
-                                for nm, op in zip(s["rv"].get("fields", []), s["rv"]["ops"]):
-                                    if nm in caps:
-                                        oo = pr.operand(op)
-                                        for x in oo:
-                                            if x[0] == "call" and ring(_cs_at(cs.body, x[1])):
-                                                okb = True
-            ctx.check(okb, "R04.3", fnkey(cs.body) + "#bound-derives-from-ring", loc(cs.body, cs.bb),
-                      "the entries-before-wake bound handed to the waker tracker does not derive from the ring (capacity/len)")
+                if cl is not None and (cl.locals[0]["ty"] if cl.locals else "") == "usize":
+                    if reaches_call(F, cl, ring_const, depth=2):
+                        kinds.add("capacity")
+                    elif reaches_call(F, cl, ring_len, depth=2):
+                        kinds.add("len-lazy")     # evaluated when the tracker calls it (checked below: after the collection)
+                    else:
+                        po = Prov(cl).local(0)
+                        caps = {x[2][0] for x in po if x[0] == "arg" and x[1] == 1 and x[2]}
+                        got = "none"
+                        for i2 in cs.body.live_blocks():
+                            for st in cs.body.stmts(i2):
+                                if st["k"] == "assign" and st["rv"]["k"] == "agg" and st["rv"].get("closure") == cl.def_:
+                                    for nm, op in zip(st["rv"].get("fields", []), st["rv"]["ops"]):
+                                        if nm in caps:
+                                            for x in cpr.operand(op):
+                                                if x[0] == "call" and ring_const(_cs_at(cs.body, x[1])):
+                                                    got = "capacity"
+                                                elif x[0] == "call" and ring_len(_cs_at(cs.body, x[1])):
+                                                    got = "len-early"
+                        kinds.add(got)
+                elif aty == "usize" and ai not in (len(cs.args) - 1,):
+                    o = cpr.operand(a)
+                    if any(x[0] == "call" and ring_const(_cs_at(cs.body, x[1])) for x in o):
+                        kinds.add("capacity")
+                    elif any(x[0] == "call" and ring_len(_cs_at(cs.body, x[1])) for x in o):
+                        kinds.add("len-early")
+            ctx.check(bool(kinds & {"capacity", "len-lazy"}) and "len-early" not in kinds, "R04.3", fnkey(cs.body) + "#bound-derives-from-ring", loc(cs.body, cs.bb),
+                      ("the entries-before-wake bound is the queue LENGTH sampled before the tracker collects the new flush requests: entries appended "
+                       "in between are not counted, so a flush can complete before they are written (use the constant capacity, or read the length "
+                       "after collecting)") if "len-early" in kinds else
+                      "the entries-before-wake bound handed to the waker tracker does not derive from the ring (capacity/len)",
+                      "bound kinds: %s" % sorted(kinds))
+            # a lazily evaluated length must be read after the new signals were collected
+            if "len-lazy" in kinds:
+                tdom = tb.dominators()
+                calls_once = [x for x in tb.calls() if x.is_trait_method("FnOnce", "call_once") and "usize" == tb.local_ty(x.dest["l"])]
+                recvs = [x for x in tb.calls() if x.name == "try_recv"]
+                ctx.check(bool(calls_once) and all(any(dominates(tb, r.bb, x.bb, tdom) for r in recvs) for x in calls_once), "R04.3", fnkey(tb) + "#length-read-after-collection", loc(tb),
+                          "the queue length used as the bound is read before the new flush requests are collected")
     ctx.floor("R04.1", "bindings of the flush action at tracker call sites", nbind, 1)
 
     # thread exit: tracker dropped only after the shutdown routine
